@@ -595,4 +595,49 @@ def runHistory (cs : List (Callable α × List Ident)) (st : CacheState) : List 
       let r := call h.env h.opts (c.load st h.optsKey keys) h.args h.kw
       r.1 :: runHistory cs (r.2.store h.optsKey keys st) rest
 
+/-! ## Threads: the context status a call reads is the one of ITS OWN thread -/
+
+/-- Context-status stacks (innermost first) indexed by the owner of the storage; an empty stack stands for the lazily
+created default stack. -/
+abbrev Stacks := Nat → List CtxStatus
+
+/-- Which stack thread `t` uses, for the storage extracted from `ag_ctx`: its own, when the storage is a plain
+`threading.local()` initialised lazily per thread; otherwise (not recognised) one stack for everybody. -/
+def stackOwner (t : Nat) : Nat :=
+  match ctxStorage with
+  | .threadLocalLazy => t
+  | .unresolved => 0
+
+/-- `ControlStatusCtx(status).__enter__()` executed by thread `t` -/
+def Stacks.enter (s : Stacks) (t : Nat) (st : CtxStatus) : Stacks :=
+  fun u => if u = stackOwner t then st :: s u else s u
+
+/-- `ControlStatusCtx.__exit__` executed by thread `t` -/
+def Stacks.leave (s : Stacks) (t : Nat) : Stacks :=
+  fun u => if u = stackOwner t then (s u).tail else s u
+
+/-- `ag_ctx.control_status_ctx().status` as read by thread `t` -/
+def currentStatus (s : Stacks) (t : Nat) : CtxStatus :=
+  (s (stackOwner t)).headD (if ctxDefaultIsUnspecified then .unspecified else .disabled)
+
+/-- a context event of some thread: enter a region with a status, or leave the innermost region -/
+abbrev CtxEvent := Nat × Option CtxStatus
+
+def Stacks.apply (s : Stacks) : List CtxEvent → Stacks
+  | [] => s
+  | (t, some st) :: rest => (s.enter t st).apply rest
+  | (t, none) :: rest => (s.leave t).apply rest
+
+/-- One event of a multi-threaded schedule. -/
+inductive TEvent (α : Type) where
+  | ctx (e : CtxEvent)
+  | call (t : Nat) (strict : Bool) (o : Opts) (c : Callable α) (args : List α) (kw : Option (Kw α))
+
+/-- The effects of the wrapped calls of a schedule (each call on its own callable). -/
+def runThreads (s : Stacks) : List (TEvent α) → List (Effect α)
+  | [] => []
+  | .ctx e :: rest => runThreads (s.apply [e]) rest
+  | .call t strict o c args kw :: rest =>
+      (call ⟨currentStatus s t, strict, true⟩ o c args kw).1 :: runThreads s rest
+
 end Malt.Policy
